@@ -7,12 +7,13 @@ mod semverx;
 mod pypi;
 mod resolvers;
 mod cacheseq;
-mod verdict;
+pub mod verdict;
 mod cachesched;
 mod cachefault;
-mod fetch;
+pub mod fetch;
 mod backend;
 mod configx;
+mod unusable;
 
 use std::collections::HashMap;
 
@@ -65,6 +66,10 @@ fn main() {
         "fetch" => fetch::run(&args),
         "backend" => backend::run(&args),
         "config" => configx::run(&args),
+        "datadir" => unusable::run_datadir(&args),
+        "datadir-child" => unusable::run_datadir_child(&args),
+        "damage" => unusable::run_damage(&args),
+        "faultdiag" => unusable::run_faultdiag(&args),
         other => {
             eprintln!("unknown stream {other}");
             std::process::exit(2);
